@@ -20,6 +20,7 @@ type pathExpression struct {
 	Matcher      *regexp.Regexp
 	Source       string // Path as defined by the RouteBuilder
 	tokens       []string
+	varGroups    []int // for each of VarNames, the index of the capture group of Matcher that holds its value
 }
 
 // NewPathExpression creates a PathExpression from the input URL path.
@@ -31,7 +32,31 @@ func newPathExpression(path string) (*pathExpression, error) {
 	if err != nil {
 		return nil, err
 	}
-	return &pathExpression{literalCount, varNames, varCount, compiled, expression, tokens}, nil
+	return &pathExpression{literalCount, varNames, varCount, compiled, expression, tokens, variableGroups(tokens)}, nil
+}
+
+// variableGroups tells, for each variable of the template in order, which capture group of the
+// compiled expression holds its value. The regular expression of a variable may contain capture
+// groups of its own, e.g. {kind:(cat|dog)} ; those must be skipped for the variables that follow.
+func variableGroups(tokens []string) []int {
+	groups := []int{}
+	next := 1
+	for _, each := range tokens {
+		if !strings.HasPrefix(each, "{") {
+			continue
+		}
+		groups = append(groups, next)
+		next++
+		if colon := strings.Index(each, ":"); colon != -1 {
+			paramExpr := strings.TrimSpace(each[colon+1 : len(each)-1])
+			if paramExpr != "*" {
+				if inner, err := regexp.Compile(paramExpr); err == nil {
+					next += inner.NumSubexp()
+				}
+			}
+		}
+	}
+	return groups
 }
 
 // http://jsr311.java.net/nonav/releases/1.1/spec/spec3.html#x3-370003.7.3
